@@ -31,6 +31,8 @@ def meaning(c, t):
             return c is ms[0]
         if name == "StrictSubclass":
             return isinstance(c, type) and issubclass(c, ms[0]) and c is not ms[0]
+        if name == "Deferred":  # stands for the class it refers to
+            return isinstance(c, type) and issubclass(c, ms[0])
     if isinstance(t, MetaMC):
         h = t._handler
         name = type(h).__name__
@@ -146,6 +148,105 @@ def run(clause, ks):
                 want = meaning(type(v), t)
                 if got != want:
                     out.append(dict(value=repr(v), type=repr(t), isinstance=str(got), meaning=want))
+    elif clause == "class_valued":
+        # a class passed as the argument is looked up as type[v] (utils.subtler_type) as soon as one overload annotates
+        # that position type[...]: "applicable exactly when type(v) has the method" with type(v) = the class of classes
+        from ovld import Ovld
+        from ovld.types import HasMethod, class_check
+
+        @class_check
+        def CallableClass(cls):
+            return hasattr(cls, "__call__")
+
+        conds = {"HasMethod[mro]": HasMethod["mro"], "HasMethod[__call__]": HasMethod["__call__"], "HasMethod[foo]": HasMethod["foo"], "HasMethod[upper]": HasMethod["upper"], "class_check(has __call__)": CallableClass}
+        passed = [int, str, T.A, T.WithFoo, list]
+        for cname, cond in conds.items():
+            for v in passed:
+                tried += 1
+                want = meaning(type(v), cond)
+                got = subclasscheck(type[v], cond)
+                if bool(got) != want:
+                    out.append(dict(type=cname, looked_up_as=f"type[{v.__name__}]", subclasscheck=str(got), meaning_on_type_of_v=want))
+            for wrap in ("plain", "union", "inter"):
+                ov = Ovld(name="cv")
+                ann = cond if wrap == "plain" else (cond | T.E) if wrap == "union" else (cond & object)
+                g = {"ANN": ann}
+                exec("def m1(x: ANN):\n    return 'cond'\n", g)
+                ov.register(g["m1"])
+
+                def m2(x: type[T.B]):
+                    return "type[B]"
+
+                ov.register(m2)
+                for v in passed + [T.B, T.C]:
+                    tried += 1
+                    app_c = meaning(type(v), cond)
+                    app_t = issubclass(v, T.B)
+                    if app_c and app_t:
+                        continue  # which of the two is preferred is the ordering's business (C12/C06), not this clause's
+                    want = "cond" if app_c else "type[B]" if app_t else "NOMETHOD"
+                    try:
+                        got = ov(v)
+                    except TypeError as e:
+                        s_ = str(e)
+                        got = "AMBIGUOUS" if s_.startswith("Ambiguous") else "NOMETHOD" if s_.startswith("No method") else f"TypeError:{s_[:40]}"
+                    if got != want:
+                        out.append(dict(type=cname, nesting=wrap, passed=v.__name__, got=got, expected=want))
+    elif clause == "virtual_subclass":
+        # "proper subclass" is the subclass relation of the language (issubclass), including abstract base classes
+        # with registered / structurally recognised subclasses and runtime-checkable protocols
+        import collections.abc as cabc
+        import numbers
+
+        from ovld.types import StrictSubclass
+        from ovld.types import Intersection as OI
+        from ovld.types import Union as OU
+
+        @typing.runtime_checkable
+        class Quacks(typing.Protocol):
+            def quack(self): ...
+
+        class Duck:
+            def quack(self):
+                return 1
+
+        class Sizedish:
+            def __len__(self):
+                return 0
+
+        class Reg: ...
+
+        class MyABC(__import__("abc").ABC): ...
+
+        MyABC.register(Reg)
+
+        class RealSub(MyABC): ...
+
+        bases = [cabc.Sized, cabc.Sequence, numbers.Number, Quacks, MyABC, T.A]
+        cs = [Duck, Sizedish, Reg, RealSub, list, tuple, int, float, str, T.A, T.B, T.E, MyABC, cabc.Sized, Quacks]
+        for b in bases:
+            t = StrictSubclass[b]
+            for c in cs:
+                tried += 1
+                want = issubclass(c, b) and c is not b
+                got = subclasscheck(c, t)
+                if bool(got) != want:
+                    out.append(dict(cls=c.__name__, type=f"StrictSubclass[{b.__name__}]", subclasscheck=str(got), meaning=want))
+                for nest, tt in (("union", OU[t, T.E]), ("inter", OI[t, object])):
+                    tried += 1
+                    w2 = want or (nest == "union" and issubclass(c, T.E))
+                    g2 = subclasscheck(c, tt)
+                    if bool(g2) != w2:
+                        out.append(dict(cls=c.__name__, type=f"StrictSubclass[{b.__name__}] in {nest}", subclasscheck=str(g2), meaning=w2))
+            try:
+                inst_vals = [Duck(), Sizedish(), Reg(), RealSub(), [], (), 1, 1.5, "a"]
+            except Exception:
+                inst_vals = []
+            for v in inst_vals:
+                tried += 1
+                want = issubclass(type(v), b) and type(v) is not b
+                if isinstance(v, t) != want:
+                    out.append(dict(value=repr(v)[:30], type=f"StrictSubclass[{b.__name__}]", isinstance=isinstance(v, t), meaning=want))
     else:
         raise SystemExit(f"unknown clause {clause}")
     return dict(clause=clause, kinds=ks, violations=out[:20], n_violations=len(out), pairs_tried=tried)
@@ -156,7 +257,7 @@ SUITE = [("meaning", [k]) for k in ["Class", "Union", "Inter", "Exactly", "Stric
     ("class_vs_alias", []),
     ("transitive", []),
     ("eq", []),
-] + [("isinstance", [k]) for k in ["Class", "Union", "Inter", "Exactly", "Strict", "HasMethod", "ClassCheck"]]
+] + [("isinstance", [k]) for k in ["Class", "Union", "Inter", "Exactly", "Strict", "HasMethod", "ClassCheck"]] + [("class_valued", []), ("virtual_subclass", [])]
 
 
 if __name__ == "__main__":
